@@ -1,7 +1,636 @@
-//! C11 part B - scripted client against the real listener (stub, filled in below)
+//! C11 part B - scripted CLIENT against the real listener (ConnectionAcceptor / SessionAcceptor /
+//! LinkAcceptor running in spawned tasks).  The scripted client picks its own channel and handle
+//! numbers: sparse (3, 900), large (4 000 000 000) and reused after end / detach.
+//!
+//! Oracle: the same wire monitor as part A over the listener's frames (its own channel and handle numbers
+//! must be unique among what it has mapped / attached, delivery-ids increasing), plus routing:
+//!  * the listener answers begin / attach / detach / end for the session or link the client's channel or
+//!    handle designates (begin reply names the client's channel, attach reply comes on the paired channel,
+//!    detach reply carries the listener's handle of THAT link);
+//!  * a message sent to client handle h on client channel c is returned by `recv()` of the Receiver the
+//!    LinkAcceptor produced for that attach, once, and by no other;
+//!  * a flow granting one credit to client handle h makes the Sender produced for that attach send one
+//!    message (each listener-side Sender writes its own identity into the body) and no other.
+use super::{encode_string_message, padded_body, Counters, WireMon, MAX_FRAME};
+use fe2o3_amqp::acceptor::{ConnectionAcceptor, LinkAcceptor, LinkEndpoint, ListenerSessionHandle, SessionAcceptor};
+use fe2o3_amqp_types::definitions::{Handle, ReceiverSettleMode, Role, SenderSettleMode};
+use fe2o3_amqp_types::messaging::{Source, Target};
+use fe2o3_amqp_types::performatives::*;
 use serde_json::json;
+use std::collections::{BTreeMap, BTreeSet, HashSet};
+use std::sync::{Arc, Mutex, OnceLock};
 use std::time::Instant;
+use vlib::history::{search, HistOut};
+use vlib::peer::{settle, Auto, Dirn, Peer, PeerLink, WFrame, AMQP_HEADER};
 use vlib::report::{Ctx, Outcome};
+use vlib::runner::{run_exec, RunCfg, Scenario};
+use vlib::util::h64;
+use vlib::vpipe::Pipe;
+
+/// the client's channel numbers and handle numbers
+pub const P_CH: [u16; 2] = [900, 3];
+pub const P_H: [u32; 2] = [4_000_000_000, 1];
+
+/// link kinds the client attaches: (name, the LISTENER's end is a receiver?)
+pub const KINDS: [(&str, bool); 3] = [("a", true), ("b", true), ("c", false)];
+
+#[derive(Debug, Clone, Copy, PartialEq, Eq, Hash)]
+pub enum EvB {
+    PBegin(u8),
+    PEnd(u8),
+    PAttach { c: u8, kind: u8, h: u8 },
+    PDetach(u8, u8),
+    PXfer(u8, u8),
+    PCredit(u8, u8),
+}
+
+pub fn alphabet_b() -> &'static Vec<EvB> {
+    static A: OnceLock<Vec<EvB>> = OnceLock::new();
+    A.get_or_init(|| {
+        let mut v = vec![];
+        for c in 0..2u8 {
+            v.push(EvB::PBegin(c));
+            v.push(EvB::PEnd(c));
+        }
+        for c in 0..2u8 {
+            for kind in 0..3u8 {
+                for h in 0..2u8 {
+                    v.push(EvB::PAttach { c, kind, h });
+                }
+            }
+        }
+        for c in 0..2u8 {
+            for h in 0..2u8 {
+                v.push(EvB::PDetach(c, h));
+                v.push(EvB::PXfer(c, h));
+                v.push(EvB::PCredit(c, h));
+            }
+        }
+        v
+    })
+}
+
+#[derive(Debug, Clone, Default, PartialEq, Eq, Hash)]
+pub struct ModelB {
+    /// per client channel index: per client handle index: attached kind
+    pub sess: [Option<[Option<u8>; 2]>; 2],
+}
+impl ModelB {
+    pub fn enabled(&self, e: EvB) -> bool {
+        match e {
+            EvB::PBegin(c) => self.sess[c as usize].is_none(),
+            EvB::PEnd(c) => self.sess[c as usize].is_some(),
+            // protocol-valid client: a name is attached once per session, a handle names one link
+            EvB::PAttach { c, kind, h } => self.sess[c as usize].is_some_and(|l| l[h as usize].is_none() && !l.iter().flatten().any(|k| *k == kind)),
+            EvB::PDetach(c, h) => self.sess[c as usize].is_some_and(|l| l[h as usize].is_some()),
+            EvB::PXfer(c, h) => self.sess[c as usize].is_some_and(|l| l[h as usize].is_some_and(|k| KINDS[k as usize].1)),
+            EvB::PCredit(c, h) => self.sess[c as usize].is_some_and(|l| l[h as usize].is_some_and(|k| !KINDS[k as usize].1)),
+        }
+    }
+    pub fn apply(&mut self, e: EvB) {
+        match e {
+            EvB::PBegin(c) => self.sess[c as usize] = Some([None, None]),
+            EvB::PEnd(c) => self.sess[c as usize] = None,
+            EvB::PAttach { c, kind, h } => {
+                if let Some(l) = self.sess[c as usize].as_mut() {
+                    l[h as usize] = Some(kind)
+                }
+            }
+            EvB::PDetach(c, h) => {
+                if let Some(l) = self.sess[c as usize].as_mut() {
+                    l[h as usize] = None
+                }
+            }
+            _ => {}
+        }
+    }
+}
+
+pub fn first_disabled_b(evs: &[EvB]) -> Option<usize> {
+    let mut m = ModelB::default();
+    for (i, e) in evs.iter().enumerate() {
+        if !m.enabled(*e) {
+            return Some(i);
+        }
+        m.apply(*e);
+    }
+    None
+}
+
+#[derive(Debug, Default)]
+struct AppLog {
+    /// (index of the session in accept order, link name, body)
+    recv: Vec<(usize, String, String)>,
+    notes: Vec<String>,
+    sessions_accepted: usize,
+}
+
+async fn session_task(idx: usize, mut sess: ListenerSessionHandle, log: Arc<Mutex<AppLog>>) {
+    let lacc = LinkAcceptor::new();
+    loop {
+        match lacc.accept(&mut sess).await {
+            Ok(LinkEndpoint::Receiver(mut r)) => {
+                let log = log.clone();
+                tokio::spawn(async move {
+                    let name = r.name().to_string();
+                    loop {
+                        match r.recv::<String>().await {
+                            Ok(d) => log.lock().unwrap().recv.push((idx, name.clone(), d.body().clone())),
+                            Err(e) => {
+                                log.lock().unwrap().notes.push(format!("receiver {idx}/{name}: recv error {e:?}"));
+                                let _ = r.close().await;
+                                break;
+                            }
+                        }
+                    }
+                });
+            }
+            Ok(LinkEndpoint::Sender(mut s)) => {
+                let log = log.clone();
+                tokio::spawn(async move {
+                    let name = s.name().to_string();
+                    let mut n = 0;
+                    loop {
+                        n += 1;
+                        // blocks until the client grants credit; the body says who sends
+                        match s.send(format!("lst-{idx}-{name}-{n}")).await {
+                            Ok(_) => {}
+                            Err(e) => {
+                                log.lock().unwrap().notes.push(format!("sender {idx}/{name}: send error {e:?}"));
+                                let _ = s.close().await;
+                                break;
+                            }
+                        }
+                    }
+                });
+            }
+            Err(e) => {
+                log.lock().unwrap().notes.push(format!("session {idx}: accept link: {e:?}"));
+                break;
+            }
+        }
+    }
+    let r = sess.on_end().await;
+    log.lock().unwrap().notes.push(format!("session {idx}: ended {r:?}"));
+}
+
+struct PLink {
+    kind: u8,
+    lib_handle: u32,
+}
+struct PSess {
+    lib_channel: u16,
+    idx: usize,
+    links: [Option<PLink>; 2],
+}
+
+#[derive(Debug, Clone, Default)]
+pub struct ObsB {
+    pub executed: usize,
+    pub fails: Vec<(String, String, usize)>,
+    pub state_keys: Vec<u64>,
+    pub trace: Vec<String>,
+    pub anomalies: Vec<String>,
+    pub counters: Counters,
+    pub machinery: Option<String>,
+}
+
+fn lib_frames_since<'a>(peer: &'a Peer, mark: usize) -> impl Iterator<Item = &'a WFrame> {
+    peer.trace[mark..].iter().filter(|w| w.dir == Dirn::FromLib)
+}
+
+pub async fn scenario_b(evs: Vec<EvB>) -> ObsB {
+    let mut obs = ObsB::default();
+    let (pipe, a, _b) = Pipe::new();
+    let mut auto = Auto::none();
+    auto.detach = true; // answers a detach only for a link the client has not itself detached
+    auto.accept_transfers = true;
+    auto.max_frame_size = MAX_FRAME;
+    auto.channel_max = 2000;
+    let mut peer = Peer::new(pipe.clone(), 1, auto);
+    let log = Arc::new(Mutex::new(AppLog::default()));
+    {
+        let log = log.clone();
+        tokio::spawn(async move {
+            let acceptor = ConnectionAcceptor::builder().container_id("lib-listener").max_frame_size(MAX_FRAME).channel_max(2000).build();
+            let mut conn = match acceptor.accept(a).await {
+                Ok(c) => c,
+                Err(e) => {
+                    log.lock().unwrap().notes.push(format!("accept connection: {e:?}"));
+                    return;
+                }
+            };
+            let sacc = SessionAcceptor::new();
+            loop {
+                match sacc.accept(&mut conn).await {
+                    Ok(sess) => {
+                        let idx = {
+                            let mut l = log.lock().unwrap();
+                            l.sessions_accepted += 1;
+                            l.sessions_accepted - 1
+                        };
+                        tokio::spawn(session_task(idx, sess, log.clone()));
+                    }
+                    Err(e) => {
+                        log.lock().unwrap().notes.push(format!("accept session: {e:?}"));
+                        break;
+                    }
+                }
+            }
+            let _ = conn.on_close().await;
+        });
+    }
+    peer.send_proto_header(AMQP_HEADER);
+    peer.send(
+        0,
+        Performative::Open(Open {
+            container_id: "scripted-client".into(),
+            hostname: None,
+            max_frame_size: MAX_FRAME.into(),
+            channel_max: 2000.into(),
+            idle_time_out: None,
+            outgoing_locales: None,
+            incoming_locales: None,
+            offered_capabilities: None,
+            desired_capabilities: None,
+            properties: None,
+        }),
+    );
+    settle(&mut peer, 3).await;
+    let opened = peer.trace.iter().any(|w| w.dir == Dirn::FromLib && matches!(w.perf(), Some(Performative::Open(_))));
+    if !opened {
+        obs.machinery = Some(format!("listener did not open: {:?} {:?}", vlib::peer::trace_to_strings(&peer.trace), log.lock().unwrap().notes));
+        return obs;
+    }
+    let mut mon = WireMon::default();
+    mon.ctx = "setup".into();
+    mon.feed_all(&peer.trace);
+    let mut shown = 0usize;
+    let flush = |obs: &mut ObsB, peer: &Peer, shown: &mut usize| {
+        for w in &peer.trace[*shown..] {
+            obs.trace.push(format!("    {}", w.short()));
+        }
+        *shown = peer.trace.len();
+    };
+    obs.trace.push("== setup: scripted client opens against the real listener".into());
+    flush(&mut obs, &peer, &mut shown);
+    let mut model = ModelB::default();
+    let mut ps: [Option<PSess>; 2] = [None, None];
+    let mut begun = 0usize;
+    let mut msg_seq = 0u32;
+    let mut n_fail_seen = 0usize;
+    let mut log_seen = 0usize;
+    obs.state_keys.push(h64(&(&model, mon.key())));
+
+    for (i, ev) in evs.iter().copied().enumerate() {
+        if !model.enabled(ev) {
+            break;
+        }
+        let mark = peer.trace.len();
+        let result: String;
+        let mut diverged = false;
+        let mut fails: Vec<(String, String)> = vec![];
+        mon.ctx = "listener".into();
+        match ev {
+            EvB::PBegin(c) => {
+                let pc = P_CH[c as usize];
+                peer.send(
+                    pc,
+                    Performative::Begin(Begin {
+                        remote_channel: None,
+                        next_outgoing_id: 5000,
+                        incoming_window: 1000,
+                        outgoing_window: 1000,
+                        handle_max: Handle(u32::MAX),
+                        offered_capabilities: None,
+                        desired_capabilities: None,
+                        properties: None,
+                    }),
+                );
+                settle(&mut peer, 3).await;
+                let replies: Vec<(u16, Option<u16>)> = lib_frames_since(&peer, mark)
+                    .filter_map(|w| match w.perf() {
+                        Some(Performative::Begin(b)) => Some((w.channel, b.remote_channel)),
+                        _ => None,
+                    })
+                    .collect();
+                match replies.as_slice() {
+                    [(lc, Some(rc))] if *rc == pc => {
+                        let lc = *lc;
+                        // the scripted peer keeps its session record under the library's channel
+                        let s = peer.sessions.entry(lc).or_default();
+                        s.lib_channel = lc;
+                        s.our_channel = pc;
+                        s.incoming_window = 1000;
+                        s.outgoing_window = 1000;
+                        s.next_outgoing_id = 5000;
+                        model.apply(ev);
+                        ps[c as usize] = Some(PSess { lib_channel: lc, idx: begun, links: [None, None] });
+                        begun += 1;
+                        result = format!("listener channel {lc}");
+                    }
+                    [(lc, rc)] => {
+                        fails.push(("begin-answered-for-wrong-channel".into(), format!("the client began a session on its channel {pc}; the listener's begin (on its channel {lc}) names remote-channel {rc:?}")));
+                        result = "wrong remote-channel".into();
+                        diverged = true;
+                    }
+                    [] => {
+                        // the application accepts every session: an unanswered begin did not reach the acceptor
+                        fails.push(("begin-not-answered".into(), format!("the client began a session on its channel {pc}; the listener (which accepts every session) sent no begin; listener frames: {:?}; notes {:?}", lib_frames_since(&peer, mark).map(|w| w.short()).collect::<Vec<_>>(), log.lock().unwrap().notes)));
+                        result = "no answer".into();
+                        diverged = true;
+                    }
+                    more => {
+                        fails.push(("begin-answered-twice".into(), format!("the client began one session on its channel {pc}; the listener sent {} begin frames {more:?}", more.len())));
+                        result = "several begins".into();
+                        diverged = true;
+                    }
+                }
+            }
+            EvB::PEnd(c) => {
+                let pc = P_CH[c as usize];
+                let s = ps[c as usize].take().unwrap();
+                model.apply(ev);
+                peer.send(pc, Performative::End(End { error: None }));
+                for l in peer.links.iter_mut().filter(|l| l.lib_channel == s.lib_channel) {
+                    l.detached = true;
+                }
+                settle(&mut peer, 3).await;
+                let ends: Vec<u16> = lib_frames_since(&peer, mark).filter(|w| matches!(w.perf(), Some(Performative::End(_)))).map(|w| w.channel).collect();
+                peer.sessions.remove(&s.lib_channel);
+                match ends.as_slice() {
+                    [lc] if *lc == s.lib_channel => result = format!("listener ended its channel {lc}"),
+                    [] => {
+                        obs.anomalies.push(format!("PEnd on client channel {pc}: no end from the listener"));
+                        result = "no answer".into();
+                        diverged = true;
+                    }
+                    other => {
+                        fails.push(("end-answered-on-wrong-channel".into(), format!("the client ended the session on its channel {pc} (listener channel {}); the listener sent end on channel(s) {other:?}", s.lib_channel)));
+                        result = "wrong channel".into();
+                        diverged = true;
+                    }
+                }
+            }
+            EvB::PAttach { c, kind, h } => {
+                let pc = P_CH[c as usize];
+                let ph = P_H[h as usize];
+                let (name, lib_is_receiver) = KINDS[kind as usize];
+                let lc = ps[c as usize].as_ref().unwrap().lib_channel;
+                peer.links.push(PeerLink {
+                    lib_channel: lc,
+                    name: name.to_string(),
+                    lib_handle: u32::MAX,
+                    our_handle: ph,
+                    lib_role: if lib_is_receiver { Role::Receiver } else { Role::Sender },
+                    delivery_count: 77,
+                    credit: 0,
+                    attached_by_peer: true,
+                    detached: false,
+                    detach_sent: false,
+                });
+                peer.send(
+                    pc,
+                    Performative::Attach(Attach {
+                        name: name.to_string(),
+                        handle: Handle(ph),
+                        role: if lib_is_receiver { Role::Sender } else { Role::Receiver },
+                        snd_settle_mode: SenderSettleMode::Mixed,
+                        rcv_settle_mode: ReceiverSettleMode::First,
+                        source: Some(Box::new(Source::builder().address(format!("q-{name}")).build())),
+                        target: Some(Box::new(Target::builder().address(format!("q-{name}")).build().into())),
+                        unsettled: None,
+                        incomplete_unsettled: false,
+                        initial_delivery_count: if lib_is_receiver { Some(77) } else { None },
+                        max_message_size: None,
+                        offered_capabilities: None,
+                        desired_capabilities: None,
+                        properties: None,
+                    }),
+                );
+                settle(&mut peer, 3).await;
+                let replies: Vec<(u16, u32, String)> = lib_frames_since(&peer, mark)
+                    .filter_map(|w| match w.perf() {
+                        Some(Performative::Attach(a)) => Some((w.channel, a.handle.0, a.name.clone())),
+                        _ => None,
+                    })
+                    .collect();
+                match replies.as_slice() {
+                    [(rlc, lh, n)] if *rlc == lc && n == name => {
+                        model.apply(ev);
+                        ps[c as usize].as_mut().unwrap().links[h as usize] = Some(PLink { kind, lib_handle: *lh });
+                        result = format!("listener handle {lh}");
+                    }
+                    [] => {
+                        // the application accepts every link: an unanswered attach did not reach the session its channel designates
+                        fails.push(("attach-not-answered".into(), format!("the client attached link '{name}' with its handle {ph} on its channel {pc} (listener channel {lc}); the listener (which accepts every link) sent no attach; listener frames: {:?}; notes {:?}", lib_frames_since(&peer, mark).map(|w| w.short()).collect::<Vec<_>>(), log.lock().unwrap().notes)));
+                        result = "no answer".into();
+                        diverged = true;
+                    }
+                    other => {
+                        fails.push(("attach-answered-on-wrong-session-or-name".into(), format!("the client attached link '{name}' with its handle {ph} on its channel {pc} (listener channel {lc}); the listener's attach frame(s): {other:?} (channel, handle, name)")));
+                        result = "wrong answer".into();
+                        diverged = true;
+                    }
+                }
+            }
+            EvB::PDetach(c, h) => {
+                let pc = P_CH[c as usize];
+                let ph = P_H[h as usize];
+                let s = ps[c as usize].as_mut().unwrap();
+                let l = s.links[h as usize].take().unwrap();
+                model.apply(ev);
+                for pl in peer.links.iter_mut().filter(|pl| pl.lib_channel == s.lib_channel && pl.our_handle == ph && !pl.detached) {
+                    pl.detached = true;
+                }
+                peer.send(pc, Performative::Detach(Detach { handle: Handle(ph), closed: true, error: None }));
+                settle(&mut peer, 4).await;
+                let replies: Vec<(u16, u32)> = lib_frames_since(&peer, mark)
+                    .filter_map(|w| match w.perf() {
+                        Some(Performative::Detach(d)) => Some((w.channel, d.handle.0)),
+                        _ => None,
+                    })
+                    .collect();
+                match replies.as_slice() {
+                    [(rlc, lh)] if *rlc == s.lib_channel && *lh == l.lib_handle => result = format!("listener detached its handle {lh}"),
+                    [] => {
+                        obs.anomalies.push(format!("PDetach handle {ph} on client channel {pc}: no detach from the listener"));
+                        result = "no answer".into();
+                        diverged = true;
+                    }
+                    other => {
+                        fails.push(("detach-answered-for-wrong-link".into(), format!("the client detached its handle {ph} on its channel {pc} (listener channel {} handle {}); the listener's detach frame(s): {other:?} (channel, handle)", s.lib_channel, l.lib_handle)));
+                        result = "wrong answer".into();
+                        diverged = true;
+                    }
+                }
+            }
+            EvB::PXfer(c, h) => {
+                let pc = P_CH[c as usize];
+                let ph = P_H[h as usize];
+                let s = ps[c as usize].as_ref().unwrap();
+                let l = s.links[h as usize].as_ref().unwrap();
+                let name = KINDS[l.kind as usize].0;
+                let target = peer.links.iter().position(|pl| pl.lib_channel == s.lib_channel && pl.our_handle == ph && !pl.detached && pl.credit > 0);
+                match target {
+                    None => {
+                        obs.anomalies.push(format!("PXfer: no credit from the listener's receiver '{name}'"));
+                        result = "no credit".into();
+                    }
+                    Some(pi) => {
+                        msg_seq += 1;
+                        let body = padded_body(&format!("client-msg-{msg_seq}:"), 40);
+                        let payload = encode_string_message(&body);
+                        let did = peer.sessions.get(&s.lib_channel).map(|x| x.next_outgoing_id).unwrap_or(0);
+                        let cut = payload.len() / 2;
+                        let mk = |first: bool| Transfer {
+                            handle: Handle(ph),
+                            delivery_id: if first { Some(did) } else { None },
+                            delivery_tag: if first { Some(serde_bytes::ByteBuf::from(format!("ct{msg_seq}").into_bytes())) } else { None },
+                            message_format: if first { Some(0) } else { None },
+                            settled: if first { Some(true) } else { None },
+                            more: first,
+                            rcv_settle_mode: None,
+                            state: None,
+                            resume: false,
+                            aborted: false,
+                            batchable: false,
+                        };
+                        peer.send_perf(pc, Performative::Transfer(mk(true)), &payload[..cut]);
+                        peer.send_perf(pc, Performative::Transfer(mk(false)), &payload[cut..]);
+                        peer.links[pi].delivery_count = peer.links[pi].delivery_count.wrapping_add(1);
+                        peer.links[pi].credit -= 1;
+                        settle(&mut peer, 3).await;
+                        let new: Vec<(usize, String, String)> = log.lock().unwrap().recv[log_seen..].to_vec();
+                        log_seen += new.len();
+                        let want = (s.idx, name.to_string(), body.clone());
+                        let short: Vec<(usize, String, String)> = new.iter().map(|(a, b, c)| (*a, b.clone(), c.trim_end_matches('.').to_string())).collect();
+                        if new.len() == 1 && new[0] == want {
+                            obs.counters.peer_msgs_routed += 1;
+                        } else if new.is_empty() {
+                            fails.push(("message-not-delivered-to-designated-link".into(), format!("the client sent '{}' to its handle {ph} on its channel {pc} (receiver '{name}' of accepted session #{}) but no Receiver returned it; listener notes: {:?}", body.trim_end_matches('.'), s.idx, log.lock().unwrap().notes)));
+                        } else if new.iter().all(|x| *x == want) {
+                            fails.push(("message-delivered-twice".into(), format!("receiver '{name}' of session #{} returned the client's message {} times", s.idx, new.len())));
+                        } else {
+                            fails.push(("message-delivered-to-wrong-link".into(), format!("the client sent '{}' to its handle {ph} on its channel {pc} (receiver '{name}' of accepted session #{}); Receivers returned {short:?} (session #, link name, body)", body.trim_end_matches('.'), s.idx)));
+                        }
+                        result = format!("delivery-id {did}; returned by {:?}", short.iter().map(|x| format!("#{}:{}", x.0, x.1)).collect::<Vec<_>>());
+                    }
+                }
+            }
+            EvB::PCredit(c, h) => {
+                let pc = P_CH[c as usize];
+                let ph = P_H[h as usize];
+                let s = ps[c as usize].as_ref().unwrap();
+                let l = s.links[h as usize].as_ref().unwrap();
+                let name = KINDS[l.kind as usize].0;
+                let dc = peer.links.iter().find(|pl| pl.lib_channel == s.lib_channel && pl.our_handle == ph && !pl.detached).map(|pl| pl.delivery_count);
+                let mut f = peer.flow_for(s.lib_channel);
+                f.handle = Some(Handle(ph));
+                f.delivery_count = dc;
+                f.link_credit = Some(1);
+                peer.send(pc, Performative::Flow(f));
+                settle(&mut peer, 4).await;
+                // which listener-side senders sent something?
+                let sent: Vec<(u16, u32, String)> = lib_frames_since(&peer, mark)
+                    .filter_map(|w| match w.perf() {
+                        Some(Performative::Transfer(t)) => {
+                            let p = String::from_utf8_lossy(&w.payload).to_string();
+                            let who = p.find("lst-").map(|k| p[k..].to_string()).unwrap_or_else(|| "<continuation>".into());
+                            Some((w.channel, t.handle.0, who))
+                        }
+                        _ => None,
+                    })
+                    .collect();
+                let want_prefix = format!("lst-{}-{name}-", s.idx);
+                let ok = sent.len() == 1 && sent[0].0 == s.lib_channel && sent[0].1 == l.lib_handle && sent[0].2.starts_with(&want_prefix);
+                if ok {
+                    obs.counters.deliveries += 0; // counted by the wire monitor
+                } else if sent.is_empty() {
+                    fails.push(("flow-not-delivered-to-designated-link".into(), format!("the client granted one credit to its handle {ph} on its channel {pc} (sender '{name}' of accepted session #{}, listener channel {} handle {}) but nothing was sent; listener notes {:?}", s.idx, s.lib_channel, l.lib_handle, log.lock().unwrap().notes)));
+                } else {
+                    fails.push(("flow-delivered-to-wrong-link".into(), format!("the client granted one credit to its handle {ph} on its channel {pc} (sender '{name}' of accepted session #{}, listener channel {} handle {}); transfers seen (channel, handle, body): {sent:?}", s.idx, s.lib_channel, l.lib_handle)));
+                }
+                result = format!("transfers {sent:?}");
+            }
+        }
+        settle(&mut peer, 1).await;
+        mon.feed_all(&peer.trace);
+        obs.trace.push(format!("== event {i}: {ev:?} -> {result}"));
+        flush(&mut obs, &peer, &mut shown);
+        for f in mon.fails[n_fail_seen..].iter() {
+            obs.fails.push((f.0.clone(), f.1.clone(), i));
+        }
+        n_fail_seen = mon.fails.len();
+        for (s, d) in fails {
+            obs.fails.push((s, d, i));
+        }
+        // anything a Receiver returned outside a PXfer event is a stray
+        let stray: Vec<(usize, String, String)> = log.lock().unwrap().recv[log_seen..].to_vec();
+        if !stray.is_empty() {
+            log_seen += stray.len();
+            obs.fails.push(("message-delivered-to-wrong-link".into(), format!("Receivers returned messages nobody sent to them during {ev:?}: {stray:?}"), i));
+        }
+        if diverged {
+            obs.trace.push(format!("   (history abandoned here; listener notes {:?})", log.lock().unwrap().notes));
+            break;
+        }
+        obs.executed = i + 1;
+        let ids: Vec<Option<(u16, usize, Vec<Option<u32>>)>> = ps.iter().map(|s| s.as_ref().map(|s| (s.lib_channel, s.idx.min(2), s.links.iter().map(|l| l.as_ref().map(|l| l.lib_handle)).collect()))).collect();
+        obs.state_keys.push(h64(&(&model, ids, mon.key(), obs.fails.iter().map(|f| &f.0).collect::<BTreeSet<_>>())));
+    }
+    obs.counters.add(&mon.counters);
+    obs
+}
+
+pub struct HistRunB {
+    pub out: HistOut,
+    pub fails: Vec<(String, String, usize)>,
+    pub anomalies: Vec<String>,
+    pub counters: Counters,
+    pub real: bool,
+}
+
+pub fn run_history_b(evs: Vec<EvB>) -> HistRunB {
+    let mut hr = HistRunB { out: HistOut::default(), fails: vec![], anomalies: vec![], counters: Counters::default(), real: false };
+    if let Some(k) = first_disabled_b(&evs) {
+        hr.out.executed = k;
+        return hr;
+    }
+    hr.real = true;
+    let scen: Scenario<ObsB> = {
+        let evs = evs.clone();
+        Arc::new(move || {
+            let evs = evs.clone();
+            Box::pin(scenario_b(evs))
+        })
+    };
+    let ex = run_exec(vec![], &RunCfg::none(), &scen);
+    match ex.out {
+        Some(o) => {
+            hr.out.executed = o.executed;
+            hr.out.state_keys = o.state_keys;
+            hr.out.trace = o.trace;
+            hr.out.machinery = o.machinery;
+            hr.fails = o.fails;
+            hr.anomalies = o.anomalies;
+            hr.counters = o.counters;
+        }
+        None => {
+            hr.out.executed = evs.len();
+            hr.out.machinery = Some(if ex.watchdog { format!("C11/B {:?}: the execution did not finish in real time", evs) } else { format!("C11/B {:?}: scenario panicked: {:?}", evs, ex.panics) });
+        }
+    }
+    if ex.spun && hr.out.machinery.is_none() {
+        hr.out.machinery = Some(format!("C11/B {:?}: some task polled more than 20000 times at one virtual instant", evs));
+    }
+    if let Some(p) = ex.panics.iter().find(|p| !p.contains("vcheck/src")) {
+        if hr.out.machinery.is_none() {
+            hr.out.machinery = Some(format!("C11/B {:?}: a library task panicked: {p}", evs));
+        }
+    }
+    hr
+}
 
 #[derive(Default)]
 pub struct PartB {
@@ -15,10 +644,119 @@ pub struct PartB {
     pub samples: Vec<serde_json::Value>,
 }
 
-pub fn run_part_b(_ctx: &Ctx, _deadline: Instant, _out: &mut Outcome) -> PartB {
-    PartB { bound: "not built".into(), summary: json!({"built": false}), ..Default::default() }
+#[derive(Default)]
+struct TotalsB {
+    executions: u64,
+    events: u64,
+    states: HashSet<u64>,
+    transitions: HashSet<(u64, usize, u64)>,
+    counters: Counters,
+    anomalies: BTreeMap<String, (u64, String)>,
+    reported: HashSet<(String, Vec<usize>)>,
+    violations: Vec<(String, String, serde_json::Value, usize)>,
+    samples: Vec<serde_json::Value>,
 }
 
-pub fn replay(_r: &serde_json::Value, out: Outcome) -> Outcome {
+pub fn run_part_b(ctx: &Ctx, deadline: Instant, out: &mut Outcome) -> PartB {
+    let al = alphabet_b();
+    let depth = if ctx.quick() { 5 } else { 6 };
+    let totals = Mutex::new(TotalsB::default());
+    let st = search(al.len(), depth, ctx.threads, deadline, |h| {
+        let evs: Vec<EvB> = h.iter().map(|i| al[*i]).collect();
+        let hr = run_history_b(evs.clone());
+        if hr.real {
+            let mut t = totals.lock().unwrap();
+            t.executions += 1;
+            t.events += hr.out.executed as u64;
+            for k in &hr.out.state_keys {
+                t.states.insert(*k);
+            }
+            for (j, w) in hr.out.state_keys.windows(2).enumerate() {
+                t.transitions.insert((w[0], h[j], w[1]));
+            }
+            t.counters.add(&hr.counters);
+            for a in &hr.anomalies {
+                let e = t.anomalies.entry(super::anomaly_class(a)).or_insert((0, format!("{:?}: {a}", evs)));
+                e.0 += 1;
+            }
+            for (sig, detail, at) in &hr.fails {
+                let hist: Vec<usize> = if *at == usize::MAX { vec![] } else { h[..=(*at).min(h.len() - 1)].to_vec() };
+                let sig = format!("{sig} [listener]");
+                if t.reported.insert((sig.clone(), hist.clone())) {
+                    let names: Vec<String> = hist.iter().map(|i| format!("{:?}", al[*i])).collect();
+                    t.violations.push((
+                        sig.clone(),
+                        format!("scripted client vs real listener (client channels {:?}, client handles {:?}), history: {:?}: {detail}", P_CH, P_H, names),
+                        json!({"part": "B", "events": hist, "event_names": names, "trace": hr.out.trace}),
+                        hist.len(),
+                    ));
+                }
+            }
+            if t.samples.is_empty() && hr.out.executed == h.len() && t.executions > 300 {
+                let names: Vec<String> = evs.iter().map(|e| format!("{e:?}")).collect();
+                t.samples.push(json!({"part": "listener", "history": names, "trace": hr.out.trace}));
+            }
+        }
+        hr.out
+    });
+    for m in st.machinery {
+        if out.machinery_errors.len() < 8 {
+            out.machinery_errors.push(m);
+        }
+    }
+    let mut t = totals.into_inner().unwrap();
+    t.violations.sort_by_key(|v| v.3);
+    for (sig, detail, rep, _) in t.violations {
+        out.violation(sig, detail, rep);
+    }
+    let an: Vec<serde_json::Value> = t.anomalies.iter().map(|(k, (n, ex))| json!({"class": k, "count": n, "example": ex})).collect();
+    PartB {
+        executions: t.executions,
+        events: t.events,
+        states: t.states.len() as u64,
+        transitions: t.transitions.len() as u64,
+        truncated: st.truncated,
+        bound: format!(
+            "ALL histories of depth {depth}{} over {} events (client begin/end on its channels {:?}; attach of link a|b (listener receives) | c (listener sends) with client handle from {:?}; detach; 2-frame transfer to a handle; one credit to a handle), <= 2 sessions x <= 2 links",
+            if st.truncated { " (CUT by the budget)" } else { "" },
+            al.len(),
+            P_CH,
+            P_H
+        ),
+        summary: json!({"executions": t.executions, "events": t.events, "states": t.states.len(), "transitions": t.transitions.len(), "depth": depth, "complete": !st.truncated, "nontrivial": t.counters.to_json(), "unjudged_api_anomalies": an}),
+        samples: t.samples,
+    }
+}
+
+pub fn replay(r: &serde_json::Value, mut out: Outcome) -> Outcome {
+    let al = alphabet_b();
+    let idx: Vec<usize> = r["events"].as_array().map(|a| a.iter().filter_map(|x| x.as_u64()).map(|i| i as usize).filter(|i| *i < al.len()).collect()).unwrap_or_default();
+    let evs: Vec<EvB> = idx.iter().map(|i| al[*i]).collect();
+    println!("replaying part B (scripted client vs listener) history {:?}", evs);
+    let hr = run_history_b(evs);
+    for l in &hr.out.trace {
+        println!("  {l}");
+    }
+    for a in &hr.anomalies {
+        println!("  (unjudged) {a}");
+    }
+    if let Some(m) = hr.out.machinery {
+        out.machinery_errors.push(m);
+    }
+    let mut seen = BTreeSet::new();
+    for (s, d, at) in hr.fails {
+        println!("  FAIL at event {at} [{s}]: {d}");
+        let s = format!("{s} [listener]");
+        if seen.insert(s.clone()) {
+            out.violation(s, d, r.clone());
+        }
+    }
+    out.set("states", hr.out.state_keys.len().max(1));
+    out.set("transitions", hr.out.executed.max(1));
+    out.set("traces_validated_against_impl", 1);
+    out.set("samples", json!([r["event_names"]]));
+    out.set("exhaustive", true);
+    out.set("bound", "replay of one history");
+    out.set("rule", "replay");
     out
 }
